@@ -20,6 +20,7 @@ DECIDED = [
     "is polled before the normal list) - a continuously non-empty waiting queue cannot starve a message whose time has come (rules of C05's POLL, reused)",
     "R-C15-ELAPSED: a deferred_until that has already passed is not returned as due time, so an immediately deliverable message is queued like any other (C06's first-run rule, reused)",
     "R-C15-DISCIPLINE (insert only, hand-out): __put_in_queue removes nothing; the name handed out by the fetch is the element the oldest-first scan is looking at",
+    "R-C15-DISCIPLINE (round 5): RabbitMQ on_new_message reaches queue.put without a suspension point (each delivery callback is its own task: a suspended earlier delivery is overtaken)",
 ]
 NOT_DECIDED = ["order across histories with concurrent producers/consumers", "RabbitMQ (server-side ordering)", "fairness between priorities (randomised by design)"]
 ASSUMPTIONS = ["Redis LRANGE returns elements left to right, LPUSH/RPUSH add at the left/right end, LREM with negative count scans from the tail", "asyncio.Queue is FIFO for put_nowait/get_nowait"]
@@ -30,6 +31,9 @@ def run(ctx: Ctx) -> None:
     inmem(ctx)
     from .C06 import first_run
 
+    from .brokers import rabbit_delivery_order
+
+    rabbit_delivery_order(ctx, "R-C15-DISCIPLINE")
     from .C05 import poll
 
     poll(ctx, "R-C15-PROMOTE")  # due delayed messages are promoted before every fetch: a busy waiting queue cannot starve them
